@@ -66,11 +66,18 @@ size_t vg_buf_len;
     (__CPROVER_r_ok((p), 9) && (VCSTR_B(p, 8) == 0 || (__CPROVER_r_ok((p), 10) && VCSTR_B(p, 9) == 0)))))))))))))))))))
 #define VCSTR_SHORT_LEN(p) (VCSTR_B(p, 0) == 0 ? 0 : VCSTR_B(p, 1) == 0 ? 1 : VCSTR_B(p, 2) == 0 ? 2 : VCSTR_B(p, 3) == 0 ? 3 : \
     VCSTR_B(p, 4) == 0 ? 4 : VCSTR_B(p, 5) == 0 ? 5 : VCSTR_B(p, 6) == 0 ? 6 : VCSTR_B(p, 7) == 0 ? 7 : VCSTR_B(p, 8) == 0 ? 8 : 9)
-#define VCSTR_OK(p) ((p) != NULL && ((VG_IN_TXT(p) && vg_txt[vg_txt_len] == 0) || (VG_IN_BUF(p) && vg_buf[vg_buf_len] == 0) || \
-    VCSTR_SHORT(p)))
-/* r is the length of the C string p (p satisfies VCSTR_OK) */
-#define VCSTR_LEN_IS(p, r) (VG_IN_TXT(p) ? (size_t) (r) == vg_txt_len - __CPROVER_POINTER_OFFSET(p) : \
-    VG_IN_BUF(p) ? (size_t) (r) == vg_buf_len - __CPROVER_POINTER_OFFSET(p) : (size_t) (r) == (size_t) VCSTR_SHORT_LEN(p))
+/* Which renderings a unit needs is chosen per unit (each extra disjunct is paid for in every
+ * clause that mentions it; with all three, spif_url_parse went past 10 GB):
+ *   default             pointers into the ghost text or the snprintf buffer (url.c parse, socket.c)
+ *   NET_CSTR_LITERALS   short strings / literals only (spif_url_unparse and friends) */
+#ifdef NET_CSTR_LITERALS
+# define VCSTR_OK(p) ((p) != NULL && VCSTR_SHORT(p))
+# define VCSTR_LEN_IS(p, r) ((size_t) (r) == (size_t) VCSTR_SHORT_LEN(p))
+#else
+# define VCSTR_OK(p) ((VG_IN_TXT(p) && vg_txt[vg_txt_len] == 0) || (VG_IN_BUF(p) && vg_buf[vg_buf_len] == 0))
+# define VCSTR_LEN_IS(p, r) (VG_IN_TXT(p) ? (size_t) (r) == vg_txt_len - __CPROVER_POINTER_OFFSET(p) : \
+                                           (size_t) (r) == vg_buf_len - __CPROVER_POINTER_OFFSET(p))
+#endif
 
 #ifdef VERIF_OWN_STRCHR
 static char *vg_search(const char *s, int c)
@@ -129,11 +136,18 @@ char *strstr(const char *h, const char *nd)
  * 2. snprintf: writes at most `size` bytes, output NUL-terminated when size > 0 (C99);
  * the text itself is arbitrary (format semantics are not modelled).  Records the output
  * extent in (vg_buf, vg_buf_len).  Returns the would-be length (any non-negative int) or
- * a negative value (encoding error).  Units needing an exact "%d" define
- * VERIF_OWN_SNPRINTF and supply their own.
+ * a negative value (encoding error).
+ * DFCC appends its write-set parameter to every function; on a variadic callee that parameter
+ * collides with the variable arguments (seen: every write of a variadic snprintf stub failed its
+ * assigns check with a garbage write set).  Therefore `snprintf` is re-bound, in units that
+ * include this header, to the fixed-arity model vg_snprintf; the macro still EVALUATES the
+ * variable arguments (comma expression), so a bad dereference inside them is still an
+ * obligation of the calling function.  Stated deviation (macro re-binding, as for the
+ * SPIF_OBJ_* dispatch macros); the text of /repo's .c files is unchanged.
+ * Units needing an exact "%d" define VERIF_OWN_SNPRINTF and supply vg_snprintf themselves.
  * ====================================================================================== */
 #ifndef VERIF_OWN_SNPRINTF
-int snprintf(char *buf, size_t size, const char *fmt, ...)
+int vg_snprintf(char *buf, size_t size, const char *fmt, long first_arg)
 {
     __CPROVER_assert(fmt != NULL, "snprintf: format not NULL");
     __CPROVER_assert(size == 0 || __CPROVER_w_ok(buf, size), "snprintf: buffer writable for size bytes");
@@ -147,7 +161,12 @@ int snprintf(char *buf, size_t size, const char *fmt, ...)
     }
     return nondet_int();
 }
+#else
+int vg_snprintf(char *buf, size_t size, const char *fmt, long first_arg);
 #endif
+#undef snprintf
+#define snprintf(buf, size, ...) vg_snprintf((char *) (buf), (size), VG_SNPRINTF_ARGS(__VA_ARGS__, 0))
+#define VG_SNPRINTF_ARGS(fmt, ...) (fmt), (long) (__VA_ARGS__)
 
 /* ======================================================================================
  * 3. Name-service lookups.  Each call returns NULL or a pointer to a static record whose
